@@ -62,6 +62,7 @@ package roprometheus
 //@   note the subscribe function of IncCounterOnSubscription: one increment, then the source subscribed with the destination itself
 //@   props C19 C09 C14
 //@   binds subscriberCtx destination counter source
+//@   calls Inc SubscribeWithContext
 //@   track counter.* source.*
 //@   ensures [one-increment-then-pass-through|C19] trace(counter.Inc(), source.SubscribeWithContext(subscriberCtx, destination))
 //@   ensures [releases-the-source|C14] result == bound_Unsubscribe(res(source.SubscribeWithContext))
@@ -71,6 +72,7 @@ package roprometheus
 //@   note composition is subscribed, with the same context and destination
 //@   props C19 C14
 //@   binds instrumentedPipe stdPipe source
+//@   calls SubscribeWithContext fn:t4 isPrometheusEnabled wrapPipeWithObservability
 //@   track call.isPrometheusEnabled call.wrapPipeWithObservability callfn.* p().* wrapPipeWithObservability().*
 //@   ensures [licence-checked-per-subscription|C19] count(call.isPrometheusEnabled) == 1
 //@   ensures [licensed-subscribes-the-instrumented-composition|C19] res(call.isPrometheusEnabled) == true ==> called(call.wrapPipeWithObservability) && arg(call.wrapPipeWithObservability, 1) == instrumentedPipe
